@@ -33,6 +33,7 @@ import (
 
 	"github.com/cockroachdb/pebble"
 	"github.com/cockroachdb/pebble/vfs"
+	pb "google.golang.org/protobuf/proto"
 
 	"github.com/oxia-db/oxia/proto"
 	"github.com/oxia-db/oxia/server"
@@ -57,6 +58,7 @@ type c06 struct {
 	fsByDir map[string]*vfs.MemFS // data dir -> file system of that incarnation
 	prop    string
 	snapshotted map[string]bool // nodes that were (re)built from a snapshot at some point
+	cutEmpty    map[string]bool // nodes whose whole log a leader has cut with Truncate(-1) and that have not been sent the snapshot yet
 }
 
 func (c *c06) dir(n string) string {
@@ -394,7 +396,11 @@ func (c *c06) checkAfterRestart(n string) {
 		// property allows that, as long as the snapshot holds committed entries only
 		c.r.Count("restart_on_snapshot_state", 1)
 	} else if off > last {
-		c.wl.fail("commit-offset-ahead-of-log", "after crash and restart, %s's DB stores commit offset %d but its log ends at offset %d (first %d; wal files: %s)", n, off, last, v.Wal.FirstOffset(), listFiles(filepath.Join(sn.Dir, "wal")))
+		why := ""
+		if last == wal.InvalidOffset && c.cutEmpty[n] {
+			why = "; a leader whose own log starts later had cut this follower's whole log with Truncate(-1) in order to send it a snapshot, and the node went down before the snapshot arrived"
+		}
+		c.wl.fail("commit-offset-ahead-of-log", "after crash and restart, %s's DB stores commit offset %d but its log ends at offset %d (first %d; wal files: %s)%s", n, off, last, v.Wal.FirstOffset(), listFiles(filepath.Join(sn.Dir, "wal")), why)
 		return
 	}
 	// the entries: the committed log known to the harness, continued by the node's own log
@@ -609,7 +615,7 @@ func runReplicas(r *Run, prop string) {
 	oldChunk := kv.MaxSnapshotChunkSize
 	kv.MaxSnapshotChunkSize = chunk
 	defer func() { kv.MaxSnapshotChunkSize = oldChunk }()
-	c := &c06{r: r, names: []string{"n1", "n2", "n3"}, dirSeq: map[string]int{}, started: map[string]bool{"n1": true}, attached: map[string]bool{}, snapshotted: map[string]bool{},
+	c := &c06{r: r, names: []string{"n1", "n2", "n3"}, dirSeq: map[string]int{}, started: map[string]bool{"n1": true}, attached: map[string]bool{}, snapshotted: map[string]bool{}, cutEmpty: map[string]bool{},
 		prop: prop, strict: c07, fsByDir: map[string]*vfs.MemFS{}}
 	if c.strict {
 		c.cfgMod = func(cfg *server.Config) {
@@ -635,7 +641,15 @@ func runReplicas(r *Run, prop string) {
 	wl.w.Net.Tap = func(t *TapMsg) {
 		if t.Kind == "open" && strings.HasSuffix(t.Method, "/SendSnapshot") {
 			c.snapshotted[t.Dst] = true
+			delete(c.cutEmpty, t.Dst)
 			r.Count("snapshots_started", 1)
+		}
+		if t.Kind == "req" && !t.Dropped && strings.HasSuffix(t.Method, "/Truncate") {
+			req := &proto.TruncateRequest{}
+			if pb.Unmarshal(t.Payload, req) == nil && req.HeadEntryId != nil && req.HeadEntryId.Offset == wal.InvalidOffset {
+				c.cutEmpty[t.Dst] = true
+				r.Count("truncates_to_empty", 1)
+			}
 		}
 	}
 	defer func() { wl.w.Net.Tap = nil }()
